@@ -29,7 +29,7 @@ var specs = map[string]*propSpec{
 		ID: "C01",
 		Rule: "case idx -> (M,R,W,P,core,PC,k): the form at PC is ENUMERATED (idx mod 7616 over all 17x7x8x8 forms), every other cell a random form, fields boundary-biased " +
 			"(0,1,2,L/2-1,L/2,L/2+1,L-1,L,L+1,M-2,M-1 for L in {R,W,M}) mixed with uniform values; M in 3..16 dense plus {17,31,64,100,800,8000,2^20}; R,W independent in 1..M (1/4 R=W=M); " +
-			"each case is run k in 1..8 cycles in lock-step with the reference (EMI94 transliteration) comparing every cell and the whole queue after every step. " +
+			"two systematic strata come first: a boundary GRID walked completely (every form x A in {0,1,2,M-1} x B in {0,1,2,M-1} x limits (M,M),(1,M),(M,1),(1,1),(2,2),(M-1,*) on cores of 3..8) and cores above 2^16 (65537..2^20) with arithmetic on operands above 2^16 (products above 2^32); each case is run k in 1..8 cycles in lock-step with the reference (EMI94 transliteration) comparing every cell and the whole queue after every step. " +
 			"non-trivial = a step that wrote/incremented/decremented a cell, jumped, skipped, split or died; distinct by (form executed, limit class, M class)",
 		Assumptions: append([]string{
 			"reference step = transliteration of the ICWS'94 draft's EMI94.c with the A-number indirect modes added symmetrically (ref/mars/step.go); CMP and SEQ behave identically",
@@ -40,7 +40,7 @@ var specs = map[string]*propSpec{
 	"C02": {
 		ID: "C02",
 		Rule: "case idx -> battle of 1..4 warriors of 'lively hostile' code (SPL/MOV/JMP/DJN heavy, DAT and division by zero seeded, 1/5 uniformly random forms), M 3..48, P 1..8, C 1..300, " +
-			"random (overlapping, wrapping) load offsets and entry points, 1/6 with read/write limits < M. Monitor (a): a Reporter records executed (warrior,pc) pairs; after EVERY cycle these, RunCycle's return value, " +
+			"random (overlapping, wrapping) load offsets and entry points, 1/6 with read/write limits < M, 1/40 of the warriors longer than the core. Monitor (a): a Reporter records executed (warrior,pc) pairs; after EVERY cycle these, RunCycle's return value, " +
 			"core, queues, alive flags, living count and CycleCount are compared with the reference scheduler. Monitor (b): a second real simulator driven by one Run() call must end in the same state. " +
 			"One case in 401 is a LONG battle of the repository's own warriors (plus a splitter) on a core of 8000 with process limits 8000/64/7 and up to 80000 cycles: executed PCs and RunCycle's return value compared every cycle, full state every 997 cycles and at the end. " +
 			"non-trivial = battle with a multi-warrior death, a mid-cycle decision leaving later warriors unexecuted, a push dropped at the process limit, the cycle limit reached with several alive, or 3-4 warriors; " +
@@ -53,7 +53,7 @@ var specs = map[string]*propSpec{
 	"C13": {
 		ID: "C13",
 		Rule: "part 1 (walked completely, as a workload): every call sequence up to depth 3 (quick) / 4 (thorough) over the alphabet {AddWarrior(w0|w1|w2), SpawnWarrior(i,off) i in -1..count+1, off in {0,M-1,M,2M+3}, " +
-			"RunCycle, Run, Reset, GetWarrior(i), GetMem(2M+3)} on a core of 5; part 2: random histories of 3..40 calls (M 5..8, P 1..3, C in {1,2,3,5,40}, two extra random warriors) biased toward Reset, respawn and calls after decision; " +
+			"RunCycle, Run, Reset, GetWarrior(i), GetMem(2M+3)} on a core of 5; part 2: random histories of 3..40 calls (M 5..8, P 1..3, C in {1,2,3,5,40}, two extra random warriors, some longer than the core; offsets and GetMem addresses also near 2^32, 2^63 and 2^64-1) biased toward Reset, respawn and calls after decision, half of them steered by a private model so that live battles are mostly stepped; " +
 			"after EVERY call the monitor compares return values/errors/nils, core, queues, NextPC, alive flags, counters and the internal invariants with the reference API state machine; Run() executes under a CPU-time progress monitor; " +
 			"half of the random histories are extended to the relational check (prefix; Reset; respawn; tail) vs (fresh; spawn; tail) compared call by call on two real simulators. " +
 			"non-trivial = history containing a call that cannot apply (bad index, running warrior, stepping/running a decided, empty or never-started battle); distinct by the sequence of call kinds",
@@ -76,7 +76,7 @@ var specs = map[string]*propSpec{
 	"C12": {
 		ID: "C12",
 		Rule: "case idx -> battle of 1..3 warriors (generator of C02, half with read/write limits < M), run to completion by Run() at shift 0 and at shifts k (all k for M<=16 in thorough; otherwise 1, M-1, two random and the two shifts that make the first warrior's code / entry point wrap) " +
-			"and, for a third of them, at k+M and k+2M; survivors, CycleCount, queues rotated by k and core rotated by k must be equal (two real simulators, no reference model involved). " +
+			"and, for a third of them, at k+M and k+2M, and at offsets congruent to k but just below 2^63 and 2^64 (incl. ones for which offset+length passes 2^64); survivors, CycleCount, queues rotated by k and core rotated by k must be equal (two real simulators, no reference model involved). " +
 			"non-trivial = shifted placement in which code or entry point wraps past M-1, or an offset >= M; distinct by (warrior count, wrap kind, limits or not, M/4, length of warrior 0)",
 		Assumptions: commonAssumptions,
 		Floor:       map[string]int{"quick": 300, "thorough": 1000},
@@ -84,7 +84,7 @@ var specs = map[string]*propSpec{
 	},
 	"C15": {
 		ID: "C15",
-		Rule: "case idx -> battle of 1..4 warriors (generator of C02, M<=48, 1/3 with limits, 1/3 of the placements at offsets >= M, 1/5 with a Reset+respawn in the middle) with my own Reporter and the bundled StateRecorder attached. " +
+		Rule: "case idx -> battle of 1..4 warriors (generator of C02, M<=48, 1/3 with limits, 1/3 of the placements at offsets >= M, 1/5 with a Reset+respawn in the middle; one case in 1201 is a reset MARATHON: 260..600 spawn / run-a-little / Reset rounds on one simulator and one recorder, which must be empty after every Reset) with my own Reporter and the bundled StateRecorder attached. " +
 			"The report-stream monitor cuts the stream into tasks at TaskPop, snapshots the core at every TaskPop and checks per task: address < M and warrior index valid on every report; TaskPop (warrior,pc) == reference executed task and the core at TaskPop == reference core before the task; " +
 			"{cells changed} subset of {cells named by write/inc/dec reports of that warrior in that task} subset of {cells the reference semantics may touch}; task-terminate / warrior-terminate reports <=> reference deaths. " +
 			"After every cycle the StateRecorder is compared cell by cell with an independent fold of the same stream and with the last-toucher fold of the reference event stream (owner exact, kind among the kinds of that task; a touch that left the content unchanged is optional); after Reset every address must be empty. " +
@@ -96,7 +96,7 @@ var specs = map[string]*propSpec{
 	},
 	"C11": {
 		ID: "C11",
-		Rule: "case idx -> step case of C01 (form at PC enumerated over all 7616, boundary-biased fields incl. L/2, L/2+1 for L in {R,W}), 7/8 with R<M or W<M, 1/8 with R=W=M; each of k in 1..8 steps is executed on a fresh real simulator and observed from outside: " +
+		Rule: "case idx -> step case of C01 (form at PC enumerated over all 7616, boundary-biased fields incl. L/2, L/2+1 for L in {R,W}), 7/8 with R<M or W<M, 1/8 with R=W=M; preceded by the boundary grid of C01 (every form x A,B in {0,1,2,M-1} x six limit classes incl. limits 1 and 2); each of k in 1..8 steps is executed on a fresh real simulator and observed from outside: " +
 			"(a) every cell that differs after the step is within floor(W/2) of the PC and every queued successor other than PC+1/PC+2 within floor(R/2); (b) non-interference twin: a second real simulator whose core differs only at distance > max(R/2,W/2) from the PC (all such cells re-randomised) " +
 			"must end with the same cells inside the window, the same queue, and must not touch anything outside it — this makes operand fetches observable at the API boundary; (c) with R=W=M the step equals the reference step computed with folding removed. " +
 			"non-trivial = step with a write at distance >= 1 or a non-sequential successor; distinct by (form, R<M or not, W<M or not)",
@@ -107,9 +107,9 @@ var specs = map[string]*propSpec{
 	},
 	"C03": {
 		ID: "C03",
-		Rule: "case idx -> abstract program (1..12 instructions over all opcodes of the dialect, optional modifier/modes/second operand, operands mixing literals, labels (backward, forward, several per line), EQU chains (forward use), predefined constants, small arithmetic; ORG or END argument, never both; optional ;name/;author/;strategy) " +
-			"under a random valid configuration (core sizes from 3 to 2^34 incl. small primes; both dialects; ICWS94 and NOP94 modes). Its meaning is computed by construction (ref/asm: label table, textual EQU substitution, own big.Int precedence-climbing evaluator, dialect default tables, lone-operand rule). " +
-			"Each program is rendered 3 (quick) / 4 (thorough) ways varying mnemonic case, blanks/tabs, blank and comment lines, trailing comments, colons, labels on their own lines, alpha-renamed labels, EQU placement, explicit default modes, missing final newline and text after END; every rendering is assembled by the real CompileWarrior and compared with the meaning (code, entry point, metadata). " +
+		Rule: "case idx -> abstract program (1..12 instructions over all opcodes of the dialect, optional modifier/modes/second operand, operands mixing literals, labels (backward, forward, several per line), EQU chains (forward use), predefined constants, small arithmetic; ORG or END argument, never both; optionally a label on the END line (= address after the last instruction); optional ;name/;author/;strategy, 1/12 of them longer than 4 KiB with multi-byte characters at every alignment) " +
+			"under a random valid configuration (core sizes from 3 to 2^34 incl. small primes, 1/12 tiny cores 3..8 whose maximum length is the whole core and which the program then often fills completely; both dialects; ICWS94 and NOP94 modes). Its meaning is computed by construction (ref/asm: label table, textual EQU substitution, own big.Int precedence-climbing evaluator, dialect default tables, lone-operand rule). " +
+			"Each program is rendered 3 (quick) / 4 (thorough) ways varying mnemonic case, blanks/tabs, blank and comment lines, trailing comments, colons, labels on their own lines, alpha-renamed labels, EQU placement, explicit default modes, missing final newline, text after END, comments of 4090..70000 bytes (ASCII and multi-byte); every rendering is assembled by the real CompileWarrior and compared with the meaning (code, entry point, metadata). " +
 			"non-trivial = program using labels and EQUs, or relying on a defaulted modifier; distinct by (dialect, feature set, defaulted?, opcode classes, length/3)",
 		Assumptions: append([]string{
 			"meaning follows DESIGN.md section 2 (pMARS NOP.B default, '88 DAT operands default to #, README lone-operand rule); names that collide with mnemonics/pseudo-ops/predefined constants and labels inside FOR bodies are not generated; values leaving the 32-bit range are skipped"}, commonAssumptions...),
@@ -130,7 +130,7 @@ var specs = map[string]*propSpec{
 	},
 	"C08": {
 		ID: "C08",
-		Rule: "case idx -> abstract program with FOR/ROF blocks in sequence and nested (depth <= 3), counts 0..6 as literals or expressions over EQUs defined earlier, counters used inside operand arithmetic of inner and outer bodies, counter-less blocks, optional block labels referenced from inside the block " +
+		Rule: "case idx -> abstract program with FOR/ROF blocks in sequence and nested (depth <= 3), counts 0..6 as literals or expressions over EQUs defined earlier, counters used inside operand arithmetic of inner and outer bodies, counter-less blocks, optional block labels referenced from inside the block, labelled blocks whose body starts with a nested block (explicitly constructed, outer count 1..3), names that differ only by letter case, EQUs written between the blocks " +
 			"(1/6 of the programs also from outside: known-finding stratum), up to 40 block expansions in total (strata 0..12 and 13..40), both dialects, random layout. Three-way comparison: CompileWarrior(program) vs CompileWarrior(manual unrolling done on the abstract program by the harness) vs by-construction meaning. " +
 			"The only accepted failures are exactly the four known findings (signature = input predicate + exact error text); pinned witnesses of the four known findings and the two README examples run as cases 0..5 of every invocation. " +
 			"non-trivial = >= 2 blocks, nesting, or a counter inside arithmetic; distinct by block-tree shape",
@@ -143,7 +143,7 @@ var specs = map[string]*propSpec{
 		ID: "C09",
 		Rule: "case idx -> warrior W (length 1..{1,5,20,100}; first instruction ENUMERATES every form legal in the dialect: all 7616 in '94, the whole independent '88 table in '88; fields across [0,M) with 0, M/2, M/2+1, M-1 favoured; every entry point; M in {3,7,80,800,8000,8192,55440}) " +
 			"printed in the canonical load-file layout (ORG n / OP.MOD m a, m b / END in '94; OP m a, m b / END n in '88) with fields unsigned, signed, congruent (>= M or <= -M) or mixed, then perturbed by a set of layout-only perturbations " +
-			"{case, extra blanks/tabs, CR-LF, comment lines, blank lines, trailing comments, metadata comments, no final newline, last line is a comment, no END line}: canonical (1/4), single (1/4), random products (1/2). BOTH readers (ParseLoadFile and CompileWarrior) read the same text; code and entry point must equal W. " +
+			"{case, extra blanks/tabs, CR-LF, comment lines, blank lines, trailing comments, metadata comments, no final newline, last line is a comment, no END line, comment lines / trailing blanks / trailing comments of 4090..70000 bytes}: canonical (1/4), single (1/4), random products (1/2). BOTH readers (ParseLoadFile and CompileWarrior) read the same text; code and entry point must equal W. " +
 			"non-trivial = text with >= 2 perturbations or a signed/congruent spelling; distinct by (dialect, perturbation set, spelling class)",
 		Assumptions: commonAssumptions,
 		Floor:       map[string]int{"quick": 500, "thorough": 1500},
@@ -151,7 +151,7 @@ var specs = map[string]*propSpec{
 	},
 	"C10": {
 		ID: "C10",
-		Rule: "case idx -> canonical load file of a small warrior with 1-2 random corruptions (field deleted/duplicated/transposed, number out of range / negative / huge / malformed, unknown mnemonic, '94-only opcode or mode, illegal '88 combination, ORG/END in odd places with 0/1/2/4 arguments, comma removed, line duplicated/deleted, garbage line, short metadata line), " +
+		Rule: "case idx -> canonical load file of a small warrior with 1-2 random corruptions (field deleted/duplicated/transposed, number out of range / negative / huge / malformed, unknown mnemonic, '94-only opcode or mode, illegal '88 combination, ORG/END in odd places with 0/1/2/4 arguments, comma removed, line duplicated/deleted, garbage line, short metadata line, lines of 4090..70000 bytes (padding, long comments, long garbage), non-ASCII letters incl. ones whose lower-case form has another byte length), " +
 			"optionally layout-perturbed, then: truncated at EVERY byte offset (1/4 of the cases), at one random offset, or not at all; both dialects; M in {3,7,80,8000}. The monitor requires: no panic; error xor warrior; on success entry point inside the code (0 when empty), every field < M, enums inside the data model, " +
 			"in '88 only legal '88 instructions with the implied modifier (independent table), and conservation: number of instructions read == number of instruction-shaped lines the structural line accountant saw before the end marker. " +
 			"non-trivial = accepted corrupted or truncated text; distinct by (dialect, corruption kind, outcome, length)",
@@ -175,7 +175,7 @@ var specs = map[string]*propSpec{
 	},
 	"C06": {
 		ID: "C06",
-		Rule: "case idx -> (configuration over all three modes, Length in {0,1,5,20,100,300}, text): half near-valid mutations of valid programs (a mode swapped to a '94-only one, an operand forced to immediate, ORG/END argument moved to len-1/len/len+1/-1, body repeated to max length -1/0/+1/+2/+7, opcode swapped to a '94-only or modified one, extreme literals, token mutations), half the hostile corpus of C05. " +
+		Rule: "case idx -> (configuration over all three modes, Length in {0,1,5,20,100,300}, text): half near-valid mutations of valid programs (a mode swapped to a '94-only one, an operand forced to immediate, ORG/END argument moved to len-1/len/len+1/-1, body repeated to max length -1/0/+1/+2/+7, opcode swapped to a '94-only or modified one, extreme literals, an EQU whose value starts with a mode character used as a mode-less operand, token mutations), half the hostile corpus of C05. " +
 			"Every input on which CompileWarrior SUCCEEDS is checked against the structural predicate (fields < M, 0 <= Start < len or empty with Start 0, len <= configured Length, enums inside the data model) and, in ICWS88 mode, against the independent '88 legality table with the implied modifier. " +
 			"non-trivial = accepted mutated input; distinct by (mode, mutation class, min(len,6))",
 		Assumptions: commonAssumptions,
@@ -185,7 +185,7 @@ var specs = map[string]*propSpec{
 	"C16": {
 		ID: "C16",
 		Rule: "case idx -> warrior (first instruction ENUMERATES all forms legal in the dialect; fields across [0,M) with 0, M/2, M/2+1, M-1 forced on half of the cases; every entry point; M in {3,7,80,257,8000,8191,8192} and occasionally 2^20; ICWS88, ICWS94 and NOP94 simulators) obtained through the real assembler, the real loader, or hand-made WarriorData; " +
-			"AddWarrior + LoadCode() gives the listing, which an independent reader of the pMARS listing conventions (START label, ORG START / END START, signed fields in (-M,M), upper-case OP.MOD in '94, no modifier in '88 with the modifier implied by the '88 table) must read back to exactly the warrior, fields compared modulo M. " +
+			"AddWarrior + LoadCode() — taken right after adding, after SpawnWarrior at a random offset, after a few cycles, or after Reset — gives the listing, which an independent reader of the pMARS listing conventions (START label, ORG START / END START, signed fields in (-M,M), upper-case OP.MOD in '94, no modifier in '88 with the modifier implied by the '88 table) must read back to exactly the warrior, fields compared modulo M. " +
 			"non-trivial = entry point != 0 or a field > M/2 (printed negative); distinct by (dialect, form of the first instruction)",
 		Assumptions: commonAssumptions,
 		Floor:       map[string]int{"quick": 2000, "thorough": 5000},
@@ -193,8 +193,8 @@ var specs = map[string]*propSpec{
 	},
 	"C17": {
 		ID: "C17",
-		Rule: "case idx -> one invocation of the freshly built cmd/gmars: flag vector over -s -p -c -l -8 -preset (all six names; half of them with -s/-c added, which must be ignored) -F -r with core size >= 3*length+1, 1/8 single-warrior, fixed placement 2/3 (any position in 1..s-1, boundary values favoured) or random placement; " +
-			"warrior files are written by the harness from by-construction programs (generator of C03/C08 rendered with random layout) and from hand-made warriors with a known fate (imp, dwarf, instant death, slow death after ~50/3000/24000/40000 cycles, process-queue filler, ...); cases 0..6 pin every preset with a slow-dying warrior against one that sits still. " +
+		Rule: "case idx -> one invocation of the freshly built cmd/gmars: flag vector over -s -p -c -l -8 -preset (all six names; half of them with -s/-c added, which must be ignored) -F -r with core size >= 3*length+1 (1/12 of the -s values above 2^16), 1/8 single-warrior, fixed placement 2/3 (any position in 1..s-1, boundary values favoured) or random placement; " +
+			"warrior files are written by the harness from by-construction programs (generator of C03/C08 rendered with random layout) and from hand-made warriors with a known fate (imp, dwarf, instant death, slow death after ~50/3000/24000/40000 cycles, process-queue filler, ...); the first cases pin every preset with a slow-dying warrior against one that sits still, the two preset repairs, and two invocations on a core of 100000 whose outcome depends on a product above 2^32; warrior files are rendered with random layout incl. comments longer than 4 KiB. " +
 			"Process monitor: exit status 0, empty stderr, exactly the expected number of 'wins ties' lines; fixed placement: the lines equal rounds x the outcome of the reference MARS run on the by-construction meanings under the configuration the options describe (preset table written from the README); random placement: wins1+wins2+ties == rounds and ties1 == ties2. " +
 			"non-trivial = decided (non-tie) battle or non-default flag set; distinct by (flag set, outcome)",
 		Assumptions: append([]string{
@@ -206,7 +206,7 @@ var specs = map[string]*propSpec{
 	},
 	"C14": {
 		ID: "C14",
-		Rule: "case idx -> one round: (1) aliasing monitor: snapshot the caller's WarriorData, AddWarrior, scribble over the caller's Code/Start/Name/Author, spawn, and compare the battle (core, queues, after spawning and after Run) with the reference battle of the data as it was when added; afterwards the caller's data must be exactly what the caller wrote; " +
+		Rule: "case idx -> one round: (0) AddWarrior/SpawnWarrior must leave the caller's WarriorData bit-identical even when it holds fields at or above the simulator's core size; (1) aliasing monitor: snapshot the caller's WarriorData, AddWarrior, scribble over the caller's Code/Start/Name/Author, spawn, and compare the battle (core, queues, after spawning and after Run) with the reference battle of the data as it was when added; afterwards the caller's data must be exactly what the caller wrote; " +
 			"(2) cross-simulator history probe: a simulator with a large process limit is run and Reset, then a simulator with a small limit runs a splitting warrior and must end exactly like the reference; " +
 			"(3) 8..48 jobs {assemble valid / hostile / FOR-heavy / EQU-heavy (incl. several undefined symbols) text, load a perturbed load file, build a simulator with its own process and cycle limits + add SHARED *WarriorData + spawn + Run (half of them: Reset, respawn, Run again)}, the first three texts repeated 20x and every FOR/EQU-heavy one 8x; " +
 			"half of the jobs are first run alone, the other half only after the concurrent phase (no warm cache); then all of them run on 1..32 goroutines under GOMAXPROCS in {1,2,4,16}; every concurrent result (error?, WarriorData / survivors, cycle count, core hash, queues) must equal the run-alone one, every battle must also equal the reference MARS, and the shared WarriorData must be unchanged. " +
